@@ -28,6 +28,7 @@ import (
 //	R-bind          typed handlers bind the arguments by Marshal -> Unmarshal into a value created for
 //	                this call; the client keeps the schema it received
 //	R-fresh-schema      no schema is served from a package-level cache
+//	R-cache-invalidated a list cached next to a registry is dropped by every registration (shared with C12)
 //	(R-bind also requires the arguments map to be marshalled untouched)
 func init() { Registry["C18"] = checkC18 }
 
@@ -72,6 +73,9 @@ func checkC18(c *Ctx) {
 	c18PathMirror(c)
 	c18Bind(c)
 	c18FreshSchema(c)
+	// ... nor from a list cached next to the tool registry that a re-registration fails to drop (C12's rule)
+	accs := CollectAccesses(c)
+	c12DerivedCache(c, discoverRegistries(c, accs), accs)
 }
 
 // ---------------------------------------------------------------- R-terminates
